@@ -45,6 +45,61 @@ pub fn string_replace_range(s: &mut String, r: Range<usize>, t: &str)
         final(temp_text)@ == replaced(old(temp_text)@, out.range, change.text@), //# to_text_changes::temporary_text_advanced_by_exactly_this_change
 //@end
 
+// ---------- the server side of a change: AnalyzedSource::update applies every TextChange to its copy of the text, in order
+//@include types_error.rs
+//@include types_tokens.rs
+//@include types_ast.rs
+// R7 stand-ins: the symbol table and the parser's token stream are only passed through by the update step
+pub struct GlobalTable { pub opaque: u8 }
+pub struct TokenStream<'a> { pub tokens: &'a [Token], pub token_change: TokenChange }
+//@extract spl_frontend/src/lib.rs :: struct AnalyzedSource
+//@ rewrite drop_derive
+//@end
+pub trait ToRange {
+    spec fn range_spec(&self) -> Range<usize>;
+    fn to_range(&self) -> (r: Range<usize>)
+        ensures r == self.range_spec();
+}
+//@extract spl_frontend/src/lib.rs :: impl ToRange for TextChange
+//@ open
+    open spec fn range_spec(&self) -> Range<usize> { self.range }
+//@end
+/// what the incremental lexer / parser return (nom code, out of reach): abstract
+pub uninterp spec fn lexed(new_text: Seq<char>, tokens: Seq<Token>, change: TextChange) -> (Seq<Token>, TokenChange);
+pub uninterp spec fn parsed(program: Program, tokens: Seq<Token>, tc: TokenChange) -> Program;
+//~assume lexer::update / parser::update / TokenStream::new_with_change (nom, pointer arithmetic) are abstract functions of their arguments
+pub mod lexer {
+    use super::*;
+    #[verifier::external_body]
+    pub fn update(new_text: &str, tokens: Vec<Token>, change: &TextChange) -> (r: (Vec<Token>, TokenChange))
+        ensures r.0@ == lexed(new_text@, tokens@, *change).0, r.1 == lexed(new_text@, tokens@, *change).1,
+    { unimplemented!() }
+}
+pub mod parser {
+    use super::*;
+    #[verifier::external_body]
+    pub fn update(program: Program, input: TokenStream) -> (r: Program)
+        ensures r == parsed(program, input.tokens@, input.token_change),
+    { unimplemented!() }
+}
+impl<'a> TokenStream<'a> {
+    #[verifier::external_body]
+    pub fn new_with_change(tokens: &'a [Token], token_change: TokenChange) -> (r: Self)
+        ensures r.tokens@ == tokens@, r.token_change == token_change,
+    { unimplemented!() }
+}
+//~assume `changes.into_iter().fold(self, f)` applies the closure to the changes in order (R6)
+//@extract spl_frontend/src/lib.rs :: impl AnalyzedSource :: fn update :: closure |mut acc, change|
+//@ rewrite string_replace_range_acc
+//@ lift pub fn update_step(mut acc: AnalyzedSource, change: TextChange) -> (r: AnalyzedSource)
+//@ sig
+    ensures
+        r.text@ == replaced(acc.text@, change.range, change.text@), //# AnalyzedSource::update::text_replaced_by_exactly_this_change
+        r.tokens@ == lexed(r.text@, acc.tokens@, change).0, //# AnalyzedSource::update::tokens_relexed_against_the_new_text
+        r.ast == parsed(acc.ast, r.tokens@, lexed(r.text@, acc.tokens@, change).1), //# AnalyzedSource::update::tree_reparsed_with_the_lexer_window
+        r.table == acc.table,
+//@end
+
 pub proof fn witness_docchange() {
     let p = Position { line: 0, character: 0 };
     assert(pos_le(p, p));
